@@ -157,6 +157,16 @@ def thm_filters(t0, s, e):
         ensures(black[0].path == nb, id="... and keeps the other file")
     both = list(fs.find(s, e, no_files_error=False, filters={"satname": ["NOAA18", "MetopB"]}))
     ensures(len(both) == (2 if hit else 0), id="a value list admits every listed value")
+    # several filters at once: every white list must admit the file and NO black list may forbid it
+    fs2 = FileSet(path="/data/{satname}/{instr}/{year}{month}{day}T{hour}{minute}.nc", name="verif2")
+    names = {(sat, ins): fs2.get_filename(t0, fill={"satname": sat, "instr": ins}) for sat in ("NOAA18", "MetopB") for ins in ("MHS", "AMSUB")}
+    fs2.file_system = GhostFS(list(names.values()))
+    bb = list(fs2.find(s, e, no_files_error=False, filters={"!satname": "NOAA18", "!instr": "MHS"}))
+    ensures(len(bb) == (1 if hit else 0), id="two black lists: a file forbidden by either one is dropped")
+    if bb:
+        ensures(bb[0].path == names[("MetopB", "AMSUB")], id="... the only file passing both is kept")
+    bb2 = list(fs2.find(s, e, no_files_error=False, filters={"!instr": "MHS", "!satname": "NOAA18"}))
+    ensures(len(bb2) == (1 if hit else 0), id="... in either order of the black lists")
 
 
 from typhon.files.handlers.common import FileInfo as _FileInfo
